@@ -214,7 +214,10 @@ def loadback_case(args):
         desc = ' '.join(a if not a.startswith(tmp) else os.path.basename(a) for a in args) + ' (%s, %d bytes)' % (ext, L)
         if 'EXC' in o1 or 'EXIT' in o1:
             return ('bin2tap', desc, o1[-200:])
-        o2 = _run_main(tap2sna.main, [tapef, z80f])
+        sim_args = ['-c', 'python=1'] if k % 3 == 2 else []
+        if sim_args:
+            desc += ' [python=1]'
+        o2 = _run_main(tap2sna.main, sim_args + [tapef, z80f])
         if not os.path.exists(z80f) or 'EXC' in o2 or 'EXIT' in o2:
             return ('tap2sna', desc, o2[-200:].replace('\n', '|'))
         s = Snapshot.get(z80f)
@@ -245,6 +248,8 @@ def run(tier):
     loadervc.check_data_loader(rep, 'C12')          # the emitted machine-code loader, executed over the ISA contracts
     loadervc.check_bank_loader(rep, 'C12')          # the 128K bank loader for every subset of banks
     fastloadvc.check_fast_load(rep, 'C12')          # tap2sna's stand-in for LD-BYTES puts block[1+k] at IX+k
+    from props import edgevc
+    edgevc.check_fast_load_bookkeeping(rep, 'C12')  # where the tape stands after a fast-loaded block (the last one stops the tape)
     loadervc.crosscheck_loaders(rep, 'C12')
     fastloadvc.crosscheck_fast_load(rep, 'C12')
     quick = tier == 'quick'
